@@ -7,9 +7,12 @@
 package c14
 
 import (
+	"crypto/ed25519"
+	"crypto/rand"
 	"encoding/json"
 	"errors"
 	"fmt"
+	"net"
 	"os"
 	"os/exec"
 	"path/filepath"
@@ -20,6 +23,7 @@ import (
 	"time"
 
 	"golang.org/x/crypto/ssh"
+	"golang.org/x/crypto/ssh/agent"
 
 	"github.com/scrapli/scrapligo/driver/generic"
 	"github.com/scrapli/scrapligo/driver/options"
@@ -46,6 +50,8 @@ type Cell struct {
 	Host       string `json:"host,omitempty"`             // "" = 127.0.0.1; "localhost" = a name (resolves via /etc/hosts)
 	PortMode   string `json:"port_mode,omitempty"`        // "" = the server's port; explicit22 = WithPort(22); default22 = no WithPort
 	HomeKH     string `json:"home_known_hosts,omitempty"` // $HOME/.ssh/known_hosts of the worker while the cell runs: has | other | nofile (never the real home)
+	HomeLook   string `json:"home_lookalike,omitempty"`   // abs | rel: $HOME holds look-alike files at $HOME/<configured path> with opposite/hostile content
+	Agent      bool   `json:"agent,omitempty"`            // SSH_AUTH_SOCK names a live in-process agent holding a key the server accepts
 	NoticeMs   int    `json:"notice_pause_ms,omitempty"`  // the device prints post-login notice lines containing "password" and ending in ':' and pauses this long before its prompt
 	NoticeKind string `json:"notice_kind,omitempty"`      // "" = lines that mention password and end in ':'; prompt-like = a line ENDING in "password:" (standard transport only: the in-channel login of the system transport legitimately answers such a line)
 	KeyMode    int    `json:"key_file_mode,omitempty"`    // keymode cells: mode of the (copied) key file
@@ -64,17 +70,19 @@ type userRec struct {
 
 // per-worker state (cases run one at a time per worker: Parallel = 1)
 var w struct {
-	dir   string
-	self  string
-	srv   [3]*sshsim.Server // 0, 1: plain host keys; 2: presents a host certificate signed by a per-worker CA
-	users [2]userRec
-	kh    [3]map[string]string // per server: known-hosts state -> path
-	cfg   string
-	tmp   string               // private TMPDIR of the worker
-	cfgs  map[string]string    // hostile ssh config files by kind
-	homes [3]map[string]string // per server: state of $HOME/.ssh/known_hosts -> home directory
-	seq   int
-	sshAt string
+	dir       string
+	self      string
+	srv       [3]*sshsim.Server // 0, 1: plain host keys; 2: presents a host certificate signed by a per-worker CA
+	users     [2]userRec
+	kh        [3]map[string]string // per server: known-hosts state -> path
+	cfg       string
+	tmp       string               // private TMPDIR of the worker
+	agentSock string               // unix socket of the in-process ssh agent
+	agentPub  ssh.PublicKey        // the key it holds
+	cfgs      map[string]string    // hostile ssh config files by kind
+	homes     [3]map[string]string // per server: state of $HOME/.ssh/known_hosts -> home directory
+	seq       int
+	sshAt     string
 }
 
 func setup() error {
@@ -190,6 +198,33 @@ func setup() error {
 			}
 		}
 	}
+	// an in-process ssh agent holding one key (cells name it in SSH_AUTH_SOCK)
+	if w.tmp != "" {
+		_, apriv, err := ed25519.GenerateKey(rand.Reader)
+		if err != nil {
+			return err
+		}
+		kr := agent.NewKeyring()
+		if err := kr.Add(agent.AddedKey{PrivateKey: apriv, Comment: "agent-key"}); err != nil {
+			return err
+		}
+		as, _ := ssh.NewSignerFromKey(apriv)
+		w.agentPub = as.PublicKey()
+		w.agentSock = filepath.Join(w.tmp, "agent.sock")
+		aln, err := net.Listen("unix", w.agentSock)
+		if err != nil {
+			return err
+		}
+		go func() {
+			for {
+				c, err := aln.Accept()
+				if err != nil {
+					return
+				}
+				go func() { agent.ServeAgent(kr, c); c.Close() }()
+			}
+		}()
+	}
 	// temp HOME directories whose .ssh/known_hosts holds the server's key / another key / does not exist
 	for i := 0; i < 2; i++ {
 		w.homes[i] = map[string]string{}
@@ -296,8 +331,8 @@ func resolveCheck(c Cell, args []string, ob *observed) (*mon.Result, bool) {
 		return bad("strict", "effective StrictHostKeyChecking is %q, the driver options say strict=%v", sk, c.Strict)
 	}
 	if c.Strict && c.KH != "none" {
-		if len(got["userknownhostsfile"]) != 1 || got["userknownhostsfile"][0] != w.kh[c.Srv][c.KH] {
-			return bad("known-hosts", "effective UserKnownHostsFile %q, configured %q", got["userknownhostsfile"], w.kh[c.Srv][c.KH])
+		if len(got["userknownhostsfile"]) != 1 || got["userknownhostsfile"][0] != c.khPath() {
+			return bad("known-hosts", "effective UserKnownHostsFile %q, configured %q", got["userknownhostsfile"], c.khPath())
 		}
 	}
 	// the host is NOT judged: the positional host is an alias to ssh, and mapping it to a HostName is
@@ -491,16 +526,70 @@ func (c Cell) port() int {
 }
 
 func (c Cell) cfgPath() string {
-	if c.CfgKind != "" {
-		if c.CfgKind == "decoy" {
-			return w.cfgs[fmt.Sprintf("decoy-%d", c.Srv)]
+	p := ""
+	switch {
+	case c.CfgKind == "decoy":
+		p = w.cfgs[fmt.Sprintf("decoy-%d", c.Srv)]
+	case c.CfgKind != "":
+		p = w.cfgs[c.CfgKind]
+	case c.Cfg:
+		p = w.cfg
+	}
+	if p != "" && c.HomeLook == "rel" {
+		return filepath.Base(p) // configured relative to the working directory (w.dir while the cell runs)
+	}
+	return p
+}
+
+// khPath is the known-hosts path as it is handed to the option (relative in the "rel" look-alike cells).
+func (c Cell) khPath() string {
+	p := w.kh[c.Srv][c.KH]
+	if c.HomeLook == "rel" {
+		return filepath.Base(p)
+	}
+	return p
+}
+
+// homeLook: while the cell runs, $HOME is a temp dir that holds look-alike files at $HOME/<configured
+// path> - for the absolute path /a/b/kh that is $HOME/a/b/kh, for the relative path kh it is $HOME/kh -
+// whose content is the opposite of the configured file (known-hosts) resp. hostile (ssh config). In the
+// "rel" variant the working directory is w.dir. Only the configured files may be used.
+func (c Cell) homeLook() func() {
+	if c.HomeLook == "" {
+		return func() {}
+	}
+	H := filepath.Join(w.dir, fmt.Sprintf("homelook_%d", w.seq))
+	oldHome := os.Getenv("HOME")
+	oldWd, _ := os.Getwd()
+	put := func(configured, body string) {
+		if configured == "" {
+			return
 		}
-		return w.cfgs[c.CfgKind]
+		t := filepath.Join(H, configured)
+		os.MkdirAll(filepath.Dir(t), 0o700)
+		os.WriteFile(t, []byte(body), 0o600)
 	}
-	if c.Cfg {
-		return w.cfg
+	os.MkdirAll(H, 0o700)
+	if c.KH != "none" {
+		srv := w.srv[c.Srv]
+		body := sshsim.KnownHostsLine(srv.Port(), srv.HostKey()) // configured file lacks the key: the look-alike has it
+		if c.KH == "has" {
+			body = sshsim.KnownHostsLine(srv.Port(), sshsim.FreshPublicKey())
+		}
+		put(c.khPath(), body)
 	}
-	return ""
+	put(c.cfgPath(), "Host *\n  Port 2022\n  User mallory\n  StrictHostKeyChecking no\n")
+	if c.HomeLook == "rel" {
+		os.Chdir(w.dir)
+	}
+	os.Setenv("HOME", H)
+	return func() {
+		os.Setenv("HOME", oldHome)
+		if oldWd != "" {
+			os.Chdir(oldWd)
+		}
+		os.RemoveAll(H)
+	}
 }
 
 func (c Cell) label() string {
@@ -520,6 +609,12 @@ func (c Cell) label() string {
 	}
 	if c.HomeKH != "" {
 		x += "/home-known-hosts=" + c.HomeKH
+	}
+	if c.HomeLook != "" {
+		x += "/home-lookalike=" + c.HomeLook
+	}
+	if c.Agent {
+		x += "/agent"
 	}
 	if c.NoticeMs > 0 {
 		x += fmt.Sprintf("/notice%s+%dms", c.NoticeKind, c.NoticeMs)
@@ -543,7 +638,7 @@ func (c Cell) opts(extra ...util.Option) []util.Option {
 		o = append(o, options.WithAuthPrivateKey(u.key.Path, ""))
 	}
 	if c.KH != "none" {
-		o = append(o, options.WithSSHKnownHostsFile(w.kh[c.Srv][c.KH]))
+		o = append(o, options.WithSSHKnownHostsFile(c.khPath()))
 	}
 	if !c.Strict {
 		o = append(o, options.WithAuthNoStrictKey())
@@ -653,8 +748,8 @@ func checkArgs(c Cell, args []string, ob *observed) *mon.Result {
 			if len(khv) != 0 {
 				return bad("known-hosts", "UserKnownHostsFile %q although none is configured", khv)
 			}
-		} else if len(khv) != 1 || khv[0] != w.kh[c.Srv][c.KH] {
-			return bad("known-hosts", "UserKnownHostsFile %q, configured %q", khv, w.kh[c.Srv][c.KH])
+		} else if len(khv) != 1 || khv[0] != c.khPath() {
+			return bad("known-hosts", "UserKnownHostsFile %q, configured %q", khv, c.khPath())
 		}
 	}
 	return nil
@@ -711,6 +806,14 @@ func runReal(c Cell) mon.Result {
 			}
 			sv.Wait(60 * time.Second)
 		})
+	}
+	defer c.homeLook()()
+	if c.Agent { // an ssh agent of the invoking user that holds a key the server would accept
+		os.Setenv("SSH_AUTH_SOCK", w.agentSock)
+		defer os.Setenv("SSH_AUTH_SOCK", "")
+		for _, s := range w.srv {
+			s.SetAccount(u.name, &sshsim.Account{Password: acct.Password, Keys: append(append([]ssh.PublicKey(nil), acct.Keys...), w.agentPub)})
+		}
 	}
 	if c.HomeKH != "" { // cases of a worker run one at a time: the process environment is ours
 		old := os.Getenv("HOME")
@@ -979,6 +1082,7 @@ func runArgv(c Cell) mon.Result {
 	base := filepath.Join(w.dir, fmt.Sprintf("standin-%d", w.seq))
 	argvFile, pwFile, script := base+".argv", base+".pw", base+".sh"
 	defer func() { os.Remove(argvFile); os.Remove(pwFile); os.Remove(script) }()
+	defer c.homeLook()()
 	flags := []string{"--mode", "cli", "--argv-out", argvFile}
 	if c.Auth == "password" {
 		flags = append(flags, "--ask-password", pwFile)
@@ -1245,6 +1349,36 @@ func gen(tier string, seed int64) []mon.Case {
 			}
 		}
 	}
+	// look-alike files below $HOME at $HOME/<configured path>; a live ssh agent on SSH_AUTH_SOCK
+	for rep := 0; rep < reps; rep++ {
+		k := 0
+		addL := func(kind string, c Cell) {
+			c.Kind, c.Rep, c.ReadSize, c.User = kind, rep, 8192, (k+rep)%2
+			cs = append(cs, mon.MkCase(fmt.Sprintf("c14/r%d/la%02d-%s.%s.srv%d", rep, k, kind, strings.ReplaceAll(c.label(), "/", "."), c.Srv), c))
+			k++
+		}
+		for _, tr := range []string{"standard", "system"} {
+			for _, look := range []string{"abs", "rel"} {
+				for _, kh := range []string{"has", "other", "empty"} {
+					for srv := 0; srv < 2; srv++ {
+						addL("real", Cell{Transport: tr, Strict: true, KH: kh, Auth: "password", Srv: srv, HomeLook: look})
+					}
+				}
+			}
+		}
+		for _, look := range []string{"abs", "rel"} {
+			for _, kh := range []string{"has", "other"} {
+				for _, cfg := range []string{"benign", "port"} {
+					addL("argv", Cell{Transport: "system", Strict: true, KH: kh, Auth: "password", Srv: k % 2, HomeLook: look, CfgKind: cfg})
+				}
+			}
+		}
+		for _, auth := range []string{"password", "both", "key"} {
+			for srv := 0; srv < 2; srv++ {
+				addL("real", Cell{Transport: "standard", Strict: true, KH: "has", Auth: auth, Srv: srv, Agent: true})
+			}
+		}
+	}
 	// key + password with a loose key-file mode; standard transport with a device that prints a line
 	// ending in "password:" before its first prompt
 	for rep := 0; rep < reps; rep++ {
@@ -1329,7 +1463,8 @@ func init() {
 			"cell the bytes arriving on the session's stdin must not contain the password. Plus 8 concurrent cells per repetition (a legitimate connection A stays open while attempts B to the same server and user with another key / empty known-hosts / a wrong password must be " +
 			"refused and a legitimate B must connect with its OWN new connection and login at the server), and 20 host-key rotation sequences (three opens of one transport object resp. fresh objects with the server's " +
 			"host key rotated in between: checking off must always connect, strict connects exactly when the file holds the current key). Plus 12 key-file-mode cells per repetition (key + password resp. key only, key file 0644/0640/0600, server accepts key or password: whenever the connection comes up the configured key must be what logged in) " +
-			"and 6 standard-transport cells whose device prints a line ENDING in 'password:' before its first prompt (nothing may be typed into the session). Plus 66 retry sequences per repetition on ONE driver object: Open #1 under a configuration that must fail inside Transport.Open (strict + no / missing / half-written known-hosts " +
+			"and 6 standard-transport cells whose device prints a line ENDING in 'password:' before its first prompt (nothing may be typed into the session). Plus 32 look-alike cells per repetition ($HOME temp dir holding files at $HOME/<configured path>, absolute and relative, with opposite known-hosts content resp. a hostile ssh config: only the configured files may be used) " +
+			"and 6 standard-transport cells with a live in-process ssh agent on SSH_AUTH_SOCK that holds a key the server accepts (only the configured identity may be offered). Plus 66 retry sequences per repetition on ONE driver object: Open #1 under a configuration that must fail inside Transport.Open (strict + no / missing / half-written known-hosts " +
 			"file; missing / half-written / unauthorised key file), optional Transport.Close, optional repair, Open #2 judged as a fresh object would be under the files at that moment (server accepts key and " +
 			"password, so a silent fallback to the password is visible). Plus 32 sequences per repetition in which ONE known-hosts path changes its contents between three consecutive strict opens in one process " +
 			"(has>other>has, has>empty>has, empty>has>empty, other>has>other; both transports; fresh Transport object per open and one re-used object; transport level, key auth): " +
